@@ -413,3 +413,37 @@ func VH_C05_new_primitive_list() {
 	w := uint64(l.raw())
 	vAssert(refKind(w) == 1 && int64(refElemCount(w)) == int64(n), "C05.newlist.pointer-word-carries-the-count")
 }
+
+// One Segment object per segment id, whatever order the segments are first looked at in: a second
+// object for the same id would carry a stale length, and Marshal would write the segment with it.
+func VH_C05_segment_identity() {
+	msg, segs := vMsgRWMax(2, 256)
+	order := vConc(int(vNondetU8()), 2)
+	var a0, a1 *Segment
+	var err error
+	if order == 0 {
+		a0, err = msg.Segment(0)
+		vAssume(err == nil)
+		a1, err = msg.Segment(1)
+		vAssume(err == nil)
+	} else {
+		a1, err = msg.Segment(1)
+		vAssume(err == nil)
+		a0, err = msg.Segment(0)
+		vAssume(err == nil)
+	}
+	vAssert(a0 == segs[0] && a1 == segs[1], "C05.segments.one-object-per-segment")
+	// grow segment 0 through the object the caller holds, then look it up again
+	before := segLen(a0)
+	_, _, aerr := alloc(a0, 8)
+	b0, err := msg.Segment(0)
+	vAssert(err == nil && b0 == a0, "C05.segments.lookup-returns-the-same-object")
+	if aerr == nil && err == nil {
+		vAssert(segLen(b0) >= before, "C05.segments.length-not-stale")
+	}
+	nb, err := msg.Marshal()
+	if err == nil && aerr == nil {
+		// the segment table carries the current length of segment 0
+		vAssert(refLoadN(nb, 4, 4) == uint64(segLen(a0)/8), "C05.segments.table-has-the-current-length")
+	}
+}
